@@ -70,7 +70,9 @@ def compact(events, ifi="vf0", conf=False):
                     ok = False
             out.append({"ev": "api", "ok": ok, "life": life, "t": t})
         elif ev == "log":
-            if e.get("line", "").startswith(ifi + ": ") and "refusing to advertise a default route" in e.get("line", ""):
+            # the interface_not_forwarding log line, recognised by what it is about rather than by its exact wording
+            ln = e.get("line", "")
+            if ln.startswith(ifi + ": ") and "forwarding" in ln.lower() and "failed" not in ln.lower():
                 out.append({"ev": "mislog", "t": t})
         elif ev == "hook":
             out.append({"ev": ev, "life": e["life"], "body": e["body"], "t": t})
